@@ -1,4 +1,4 @@
-/* Environment of tcp.c framing (ASSUMED models, ghost state in ghost.h).
+/* Environment of sockfd.c framing (copy of modules/tcpframe/env.h) (ASSUMED models, ghost state in ghost.h).
  *
  *  - stream layer: nng_stream_send/recv/close only record the request; the
  *    completion (result, byte count) is the symbolic pre-state of the next
